@@ -9,14 +9,16 @@ import concurrent.futures as cf
 sys.path.insert(0, os.path.dirname(os.path.abspath(__file__)))
 import run, report
 
+BASE = "/repo"
+
 def scan(seed_dir):
     meta_p = os.path.join(seed_dir, "meta.json")
     meta = json.load(open(meta_p))
     prop = meta["property"]
     d = tempfile.mkdtemp(prefix="seedscan.", dir="/tmp")
     try:
-        shutil.copytree("/repo/src", os.path.join(d, "src"))
-        shutil.copy("/repo/Cargo.toml", d)
+        shutil.copytree(os.path.join(BASE, "src"), os.path.join(d, "src"))
+        shutil.copy(os.path.join(BASE, "Cargo.toml"), d)
         subprocess.run("git init -q . 2>/dev/null", shell=True, cwd=d)
         p = subprocess.run(["git", "apply", "--whitespace=nowarn", os.path.join(seed_dir, "patch.diff")], cwd=d, capture_output=True, text=True)
         if p.returncode:
@@ -53,6 +55,17 @@ def scan(seed_dir):
 
 def main():
     ids = sys.argv[1:]
+    # work on a snapshot of the contracts, so that the scan is not disturbed by edits made meanwhile
+    snap = tempfile.mkdtemp(prefix="seedscan.snap.", dir="/tmp")
+    shutil.copytree("/verif/contracts", os.path.join(snap, "contracts"))
+    run.VERIF = snap
+    global BASE
+    os.makedirs(os.path.join(snap, "repo"))
+    shutil.copytree("/repo/src", os.path.join(snap, "repo", "src"))
+    shutil.copy("/repo/Cargo.toml", os.path.join(snap, "repo"))
+    BASE = os.path.join(snap, "repo")
+    import atexit
+    atexit.register(lambda: shutil.rmtree(snap, ignore_errors=True))
     dirs = sorted(glob.glob("/verif/seeded/C*-m*"))
     if ids:
         dirs = [x for x in dirs if os.path.basename(x) in ids or os.path.basename(x).split("-")[0] in ids]
